@@ -183,9 +183,9 @@ fn space_scope() -> ManuallyDrop<ResourceContext> {
 
 // Structure concrete, payload symbolic (rule 1): who allows and who denies is
 // enumerated as concrete shapes below, and what stays symbolic inside a shape is the
-// number of approvals required (u64), the clock, the expiry instant and resource
-// names. "read" names the requested permission, "purge" does not.
-// (`c19_authz_precedence_symbolic` further down has the structure symbolic too.)
+// number of approvals required (u64) and the clock. "read" names the requested
+// permission, "purge" does not. (A version with the structure symbolic too did not
+// finish: see the note before the expiry harnesses.)
 
 fn grant(action: &str) -> Candidate {
     candidate(vec![action.to_string()], no_scope(), no_conditions(), no_constraints())
@@ -268,8 +268,9 @@ precedence_harness!(c19_authz_space_suspended, "active", "suspended", true,
 // Not claimed (measured, each with --max-field-sensitivity-array-size 4096, 900 s, no
 // verdict): (a) ONE authority whose ownership and three match outcomes are symbolic
 // (4 symbolic action-name bytes each) — the length of `allows` and of every cloned
-// list becomes symbolic; (b) a Grant whose expiry instant and the clock are both
-// symbolic bytes, for the same reason. Expiry through `authorize`'s own clock read is
+// list becomes symbolic; (b) a named element with a deny statement scoped by a
+// symbolic kind and a Grant scoped by a symbolic element id whose expiry instant and
+// the clock are symbolic bytes, for the same reason. Expiry through `authorize`'s own clock read is
 // therefore checked on three concrete instants around the expiry; the symbolic
 // comparison itself is C19.scope.expiry_instant / C19.authz.candidate_matches_iff.
 
